@@ -145,6 +145,7 @@ type Program struct {
 	NonNils   []*NonNil
 	nonNilKeys map[string]*NonNil
 	SerialAudit []string // tags of the package-wide serial-comparison audit
+	CalledGhost map[string]bool // callees named in a called("...") ghost: their calls are counted in the state
 	typeTags  map[string]int
 	tagTypes  map[int]types.Type
 	effects   map[*ssa.Function]*effectSet
@@ -290,7 +291,13 @@ func (p *Program) parseContractFile(fname string, f *ast.File) error {
 	if p.Preds == nil {
 		p.Preds = map[string]*Pred{}
 	}
+	if p.CalledGhost == nil {
+		p.CalledGhost = map[string]bool{}
+	}
 	for _, l := range joined {
+		for _, m := range calledGhostRe.FindAllStringSubmatch(l.text, -1) {
+			p.CalledGhost[m[1]] = true
+		}
 		fields := strings.Fields(l.text)
 		head := fields[0]
 		rest := strings.TrimSpace(strings.TrimPrefix(l.text, head))
@@ -908,3 +915,5 @@ func (cl *Clause) litParams() []*types.Var {
 	}
 	return out
 }
+
+var calledGhostRe = regexp.MustCompile(`\bcalled\("([^"]+)"\)`)
